@@ -341,7 +341,8 @@ def apply_transforms(transaction, transforms):
                     transaction[raw_key] = transaction.get('description', '')
                 transaction['description'] = str(new_value)
             else:
-                if 'field' not in transaction:
+                # 'field' is None for a source without custom captures
+                if transaction.get('field') is None:
                     transaction['field'] = {}
                 # Save original if not already saved
                 if raw_key not in transaction:
